@@ -29,7 +29,12 @@ NAN = float("nan")
 INF = float("inf")
 VALUES = [NAN, 0.25, 0.75, 2.0, -1.0, INF]
 DEFAULTS = [NAN, 0.5, 3.0]
-SETTINGS = [(lp, d, lr) for lp in (False, True) for d in DEFAULTS for lr in (False, True)]
+# (lock-previous, default, lock-range, minimum, maximum): the 12 settings of the statement on [0, 1] ...
+SETTINGS = [(lp, d, lr, 0.0, 1.0) for lp in (False, True) for d in DEFAULTS for lr in (False, True)]
+N_BASE = len(SETTINGS)
+# ... plus an infinite default and half-open ranges (only one bound to clip at)
+SETTINGS += [(lp, float("inf"), lr, 0.0, 1.0) for lp in (False, True) for lr in (False, True)]
+SETTINGS += [(True, d, True, lo, hi) for d in (NAN, 0.5, float("inf")) for lo, hi in ((0.0, float("inf")), (float("-inf"), 1.0))]
 
 
 class Scripted(fl.Defuzzifier):
@@ -68,7 +73,7 @@ def ops_a(max_len: int):
             ops.append(("disabled", "0d", rows))
         else:
             ops.append(("defuzz", "batch", rows))
-    ops += [("fail", "RuntimeError"), ("fail", "ValueError"), ("clear",), ("activate",)]
+    ops += [("fail", "RuntimeError"), ("fail", "ValueError"), ("clear",), ("clear-disabled",), ("activate",)]
     ops.append(("disabled", "batch", [0.25, NAN]))
     return ops
 
@@ -80,20 +85,20 @@ def ops_b(max_len: int):
             ops += [("process", "float", rows), ("process", "b1", rows), ("process-disabled", "float", rows)]
         else:
             ops.append(("process", "batch", rows))
-    ops.append(("restart",))
+    ops += [("restart",), ("restart-disabled",)]
     return ops
 
 
 def plan(tier: str, seed: int):
     shards = [(driver, s, part) for s in range(len(SETTINGS)) for driver in ("A", "B") for part in range(PARTS)]
-    shards += [("T", s, 0) for s in range(len(SETTINGS))]  # TLC model + conformance replay of its state graph
+    shards += [("T", s, 0) for s in range(N_BASE)]  # TLC model + conformance replay of its state graph (the 12 settings)
     return shards
 
 
 # ---------------------------------------------------------------------------------------------------------------------
 def build_a(setting):
-    lp, d, lr = setting
-    var = fl.OutputVariable("o", minimum=0.0, maximum=1.0, lock_range=lr, lock_previous=lp, default_value=d,
+    lp, d, lr, lo, hi = setting
+    var = fl.OutputVariable("o", minimum=lo, maximum=hi, lock_range=lr, lock_previous=lp, default_value=d,
                             defuzzifier=Scripted(), terms=[fl.Triangle("t", 0.0, 0.5, 1.0)])
     return var
 
@@ -102,11 +107,11 @@ INPUT_OF = {0.25: 0.25, 0.75: 1.25, 2.0: 2.25, -1.0: 3.25, INF: 4.25}
 
 
 def build_b(setting):
-    lp, d, lr = setting
+    lp, d, lr, lo, hi = setting
     consts = [0.25, 0.75, 2.0, -1.0, INF]
     iv = fl.InputVariable("i", minimum=0.0, maximum=10.0,
                           terms=[fl.Rectangle(f"b{k}", float(k), k + 0.5) for k in range(5)])
-    ov = fl.OutputVariable("o", minimum=0.0, maximum=1.0, lock_range=lr, lock_previous=lp, default_value=d,
+    ov = fl.OutputVariable("o", minimum=lo, maximum=hi, lock_range=lr, lock_previous=lp, default_value=d,
                            defuzzifier=fl.WeightedAverage(), terms=[fl.Constant(f"c{k}", consts[k]) for k in range(5)])
     rb = fl.RuleBlock("rb", activation=fl.General(),
                       rules=[fl.Rule.create(f"if i is b{k} then o is c{k}") for k in range(5)])
@@ -144,8 +149,11 @@ def apply_a(var, model: Cascade | None, op):
             var.defuzzify()
         except Exception as ex:  # noqa: BLE001
             raised = ex
-    elif kind == "clear":
+    elif kind in ("clear", "clear-disabled"):
+        if kind == "clear-disabled":  # clearing is not guarded by the enabled flag
+            var.enabled = False
         var.clear()
+        var.enabled = True
         if model:
             model.clear()
     elif kind == "activate":
@@ -176,8 +184,11 @@ def apply_b(engine, model: Cascade | None, op):
             ov.enabled = True
             if model:
                 model.enabled = True
-    elif kind == "restart":
+    elif kind in ("restart", "restart-disabled"):
+        if kind == "restart-disabled":
+            ov.enabled = False
         engine.restart()
+        ov.enabled = True
         if model:
             model.clear()
     return raised
@@ -207,11 +218,11 @@ def model_states(driver: str, setting, max_len: int):
     """Reachable states of the REFERENCE MODEL (breadth-first, to closure) with a shortest history for each.  The real
     object is then driven through every (state, operation) pair; as long as it agrees with the model on every
     transition its reachable state space is the model's, and the first disagreement is reported as a violation."""
-    lp, d, lr = setting
+    lp, d, lr, lo, hi = setting
     ops = ops_a(max_len) if driver == "A" else ops_b(max_len)
 
     def run(history):
-        m = Cascade(lp, d, lr, 0.0, 1.0)
+        m = Cascade(lp, d, lr, lo, hi)
         nf = 0
         for op in history:
             kind = op[0]
@@ -219,7 +230,7 @@ def model_states(driver: str, setting, max_len: int):
                 m.defuzzify(list(op[2]))
                 if kind == "process":
                     nf = 1
-            elif kind in ("clear", "restart"):
+            elif kind in ("clear", "restart", "clear-disabled", "restart-disabled"):
                 m.clear()
                 nf = 0
             elif kind == "activate":
@@ -239,18 +250,18 @@ def model_states(driver: str, setting, max_len: int):
 
 
 def explore(acc: Acc, driver: str, setting, max_len: int, only_history=None, part: int = 0, parts: int = 1) -> None:
-    lp, d, lr = setting
+    lp, d, lr, lo, hi = setting
     build = build_a if driver == "A" else build_b
     apply = apply_a if driver == "A" else apply_b
     ops = ops_a(max_len) if driver == "A" else ops_b(max_len)
-    name = {"lock_previous": lp, "default": d, "lock_range": lr}
+    name = {"lock_previous": lp, "default": d, "lock_range": lr, "range": [lo, hi]}
 
     def var_of(obj):
         return obj if driver == "A" else obj.output_variables[0]
 
     def rebuild(history):
         obj = build(setting)
-        model = Cascade(lp, d, lr, 0.0, 1.0)
+        model = Cascade(lp, d, lr, lo, hi)
         for op in history:
             apply(obj, model, op)
         return obj, model
@@ -294,7 +305,7 @@ def explore(acc: Acc, driver: str, setting, max_len: int, only_history=None, par
             ok = False
         if op[0] in ("disabled", "process-disabled"):
             acc.cls("disabled_call")
-        if op[0] in ("clear", "restart"):
+        if op[0] in ("clear", "restart", "clear-disabled", "restart-disabled"):
             acc.cls("cleared")
         if not ok:
             return None
@@ -336,7 +347,7 @@ def run_tlc(setting):
     import subprocess
     import tempfile
 
-    lp, d, lr = setting
+    lp, d, lr = setting[:3]
     kind = "none" if d != d else ("in" if d == 0.5 else "out")
     here = os.path.join(os.path.dirname(os.path.dirname(os.path.abspath(__file__))), "tla")
     work = tempfile.mkdtemp(prefix="vmc-tlc-")
@@ -371,7 +382,7 @@ def run_tlc(setting):
 
 
 def tlc_conformance(acc: Acc, setting) -> None:
-    name = {"lock_previous": setting[0], "default": setting[1], "lock_range": setting[2]}
+    name = {"lock_previous": setting[0], "default": setting[1], "lock_range": setting[2], "range": [setting[3], setting[4]]}
     res, log = run_tlc(setting)
     case0 = {"driver": "T", "setting": name, "history": [], "op": ["tlc"]}
     if res == "unavailable":
@@ -443,13 +454,13 @@ def summarize(tier: str, seed: int, merged: dict) -> dict:
         if not merged["classes"].get(cls):
             vac.append(f"outcome class {cls} is empty")
     max_len = 2 if tier == "quick" else 3
-    if tier == "thorough" and merged["classes"].get("tlc_models_checked", 0) != len(SETTINGS):
+    if tier == "thorough" and merged["classes"].get("tlc_models_checked", 0) != N_BASE:
         vac.append("the TLC add-on did not check all 12 settings")
     return {
         "rule": (
-            f"BFS to closure of the reachable states of OutputVariable under 12 settings; operations: defuzzify with every "
+            f"BFS to closure of the reachable states of OutputVariable under {len(SETTINGS)} settings (the 12 of the statement on [0,1], an infinite default, half-open ranges); operations: defuzzify with every "
             f"batch of 1..{max_len} values over {['nan', 0.25, 0.75, 2.0, -1.0, 'inf']} (result shapes: 0-d array, numpy scalar, "
-            "1-element array, 1-D array), defuzzifier failure (2 exception classes), clear(), defuzzify while disabled, add "
+            "1-element array, 1-D array), defuzzifier failure (2 exception classes), clear() (also while disabled), defuzzify while disabled, add "
             "an activation; driver B: Engine.process (float / array inputs) and restart on a WeightedAverage engine. "
             "Because the search runs to closure, histories of every length are covered for batches up to the stated size. "
             "states = distinct (model, real) states; transitions = operations executed on a fresh real object after "
@@ -477,7 +488,8 @@ def _unjson(x):
 def replay(case: dict):
     acc = Acc(ID)
     st = case["setting"]
-    setting = (st["lock_previous"], float(_unjson(st["default"])), st["lock_range"])
+    rng = _unjson(st.get("range", [0.0, 1.0]))
+    setting = (st["lock_previous"], float(_unjson(st["default"])), st["lock_range"], float(rng[0]), float(rng[1]))
     history = tuple(tuple(_unjson(o)) for o in case["history"])
     op = tuple(_unjson(case["op"]))
     if case["driver"] == "T":
@@ -485,7 +497,7 @@ def replay(case: dict):
         for h in history:
             apply_a(var, None, h)
         apply_a(var, None, op)
-        model = Cascade(setting[0], setting[1], setting[2], 0.0, 1.0)
+        model = Cascade(setting[0], setting[1], setting[2], setting[3], setting[4])
         scratch = build_a(setting)
         for h in history + (op,):
             apply_a(scratch, model, h)
